@@ -295,6 +295,9 @@ func (u *Unit) sameRecursionGroup(fn *ssa.Function) bool {
 
 func (u *Unit) applyPre(st *State, c *FuncContract, env *SpecEnv, name string, pos token.Pos) bool {
 	for i, r := range c.Requires {
+		if strings.HasPrefix(r.Label, "creator") {
+			continue
+		}
 		t, err := u.evalBool(st, env, r.Expr)
 		if err != nil {
 			u.fail(fmt.Sprintf("%s: requires %q at call: %v", r.Where, r.Src, err))
@@ -309,7 +312,7 @@ func (u *Unit) applyPre(st *State, c *FuncContract, env *SpecEnv, name string, p
 	return !st.dead
 }
 
-var unknownIdentRe = regexp.MustCompile(`unknown identifier "([^"]+)"`)
+var unknownIdentRe = regexp.MustCompile(`(?:unknown identifier "|cannot resolve )([A-Za-z_][A-Za-z0-9_]*)`)
 
 // calleeHasLocal: does the contract's function have a local variable of that name?
 func (u *Unit) calleeHasLocal(c *FuncContract, name string) bool {
@@ -815,8 +818,16 @@ func (u *Unit) closureCreated(st *State, fr *Frame, cv Val, pos token.Pos) {
 	delete(env.vars, "self")
 	// preconditions that speak only about captured variables must hold when the closure is created
 	for i, r := range c.Requires {
-		if !strings.HasPrefix(r.Label, "captured") {
+		if !strings.HasPrefix(r.Label, "captured") && !strings.HasPrefix(r.Label, "creator") {
 			continue
+		}
+		if strings.HasPrefix(r.Label, "creator") {
+			// may also speak about the creating function's locals (alignment of what is captured)
+			env.fr = fr
+			env.useLocals = true
+		} else {
+			env.fr = nil
+			env.useLocals = false
 		}
 		t, err := u.evalBool(st, env, r.Expr)
 		if err != nil {
